@@ -69,6 +69,11 @@ func runCodecLists(rep *Report) {
 	}
 	defer out.Flush()
 	r := rand.New(rand.NewSource(int64(*fSeed)*7919 + 42))
+	fail := func(kind, format string, a ...interface{}) {
+		if len(rep.Failures) < 20 {
+			rep.Failures = append(rep.Failures, FailureRec{Prop: "C10", Kind: kind, Msg: fmt.Sprintf(format, a...), Seed: *fSeed})
+		}
+	}
 	n1 := *fN
 	n2 := *fN * 2 / 3
 	for i := 0; i < n1; i++ {
@@ -79,6 +84,11 @@ func runCodecLists(rep *Report) {
 		buf := append(append([]byte(nil), enc...), byte(r.Intn(256)), byte(r.Intn(256)), byte(r.Intn(256)), byte(r.Intn(256)))
 		dm, did, dc, n := txfile.VerifDecodeRegion(buf)
 		fmt.Fprintf(out, "decregion %s => %d %d %d %d\n", hex.EncodeToString(buf), b2i(dm), did, dc, n)
+		// implementation-level round trip (ids the format can hold)
+		if id < 1<<55 && c >= 1 && (dm != m || did != id || dc != c || n != len(enc)) {
+			fail("region-roundtrip", "region meta=%v id=%d count=%d encodes to %s, which decodes to meta=%v id=%d count=%d using %d of %d bytes",
+				m, id, c, hex.EncodeToString(enc), dm, did, dc, n, len(enc))
+		}
 		// decode random 12 bytes
 		rb := make([]byte, 12)
 		r.Read(rb)
@@ -148,6 +158,29 @@ func runCodecLists(rep *Report) {
 			}
 		}
 		fmt.Fprintf(out, "writefl %d %s %s %s => %s\n", ps, idStr, fmtRegs(ml), fmtRegs(dl), res)
+		valid := true
+		for _, e := range append(append([][2]uint64(nil), ml...), dl...) {
+			if e[1] == 0 {
+				valid = false // an empty region is not a region (out of contract)
+			}
+		}
+		if err == nil && valid && len(pages) == len(to) && len(to) > 0 {
+			// implementation-level round trip: what was written is what recovery reads
+			var rm, rd [][2]uint64
+			var rerr error
+			func() {
+				defer func() {
+					if x := recover(); x != nil {
+						rerr = fmt.Errorf("panic: %v", x)
+					}
+				}()
+				rm, rd, _, rerr = txfile.VerifReadFreeList(pages, to[0][0])
+			}()
+			if rerr != nil || fmtRegs(rm) != fmtRegs(ml) || fmtRegs(rd) != fmtRegs(dl) {
+				fail("freelist-roundtrip", "free lists meta=%s data=%s written to pages %s (page size %d) read back as meta=%s data=%s err=%v",
+					fmtRegs(ml), fmtRegs(dl), idStr, ps, fmtRegs(rm), fmtRegs(rd), rerr)
+			}
+		}
 		// single entry wal mapping (map iteration order is irrelevant then)
 		var mp [][2]uint64
 		if r.Intn(4) > 0 {
